@@ -27,9 +27,9 @@ REQUIRED = ["op.add", "op.add-list", "op.add-network", "op.remove_obstacle", "op
             "op.remove_traffic_light-list", "op.remove_intersection", "op.remove_intersection-list",
             "op.replace_lanelet_network", "op.erase_lanelet_network", "op.generate_object_id", "collision-predicted",
             "re-add-after-removal", "hooked-state-checked", "nonpositive-ids", "op.remove-stale.lanelet",
-            "op.remove-stale.sign", "op.remove-stale.intersection", "network-with-duplicate-ids"]
-EXHAUSTIVE = {"quick": "all operation sequences of length <= 2 over the fixed 22-operation alphabet",
-              "thorough": "all operation sequences of length <= 4 over the fixed 22-operation alphabet"}
+            "op.remove-stale.sign", "op.remove-stale.intersection", "network-with-duplicate-ids", "lanelet-with-references-to-no-sign-or-light"]
+EXHAUSTIVE = {"quick": "all operation sequences of length <= 2 over the fixed 26-operation alphabet",
+              "thorough": "all operation sequences of length <= 4 over the fixed 26-operation alphabet"}
 ASSUMPTIONS = ["atomicity of list adds beyond the failing element is not demanded (elements before it stay added)",
                "a network is added with add_objects only while the scenario's network is empty; "
                "replace_lanelet_network is only issued with networks that do not collide with contained obstacles"]
@@ -83,8 +83,11 @@ class Universe:
 
         # key -> (kind, ids it reserves, factory)
         self.spec = {}
+        # lanelets may carry sign / light reference NUMBERS that no contained sign / light has (they are plain id sets);
+        # such a number may at the same time be the id of a contained object of another kind (obstacles 7, 8, 1)
+        self.lrefs = {3: ((7,), (8,)), 4: ((1, 5), ())}
         for i in (1, 2, 3, 4):
-            self.spec["L%d" % i] = ("lanelet", [i], lambda i=i: lanelet(i))
+            self.spec["L%d" % i] = ("lanelet", [i], lambda i=i: lanelet(i, *self.lrefs.get(i, ((), ()))))
         for i in (3, 5, 6):
             self.spec["S%d" % i] = ("sign", [i], lambda i=i: sign(i))
         for i in (4, 6, 7):
@@ -162,7 +165,7 @@ class Model:
 
 
 FIXED_ALPHABET = [
-    ("add", "L1"), ("add", "Os1"), ("add", "S3"), ("add", "Op3"), ("add", "I8"), ("add", "Od8"), ("add", "I9"),
+    ("add", "L1"), ("add", "L3"), ("add", "Os7"), ("remove", "L3"), ("add", "Os1"), ("add", "S3"), ("add", "Op3"), ("add", "I8"), ("add", "Od8"), ("add", "I9"),
     ("add-list", ("L2", "Oe2")), ("add-network", "N1"), ("add-network", "N3"), ("remove", "L1"), ("remove", "Os1"), ("remove-list", ("I8",)),
     ("remove", "I8"), ("remove", "S3"), ("replace", "N2"), ("erase", None), ("gen", None), ("remove-stale", "Os1"),
     ("remove-stale", "L1"), ("remove-stale", "S3"), ("remove-stale", "I8"),
@@ -231,7 +234,9 @@ def run(ctx):
                         if kind == "intersection":
                             m.inter[ids[0]] = ids[1:]
                         if kind == "lanelet":
-                            m.refs[ids[0]] = (set(), set())
+                            m.refs[ids[0]] = tuple(set(x) for x in U.lrefs.get(ids[0], ((), ())))
+                            if U.lrefs.get(ids[0]):
+                                ctx.feature("lanelet-with-references-to-no-sign-or-light")
                     else:
                         ctx.feature("collision-predicted")
                         if raised is None:
@@ -263,7 +268,7 @@ def run(ctx):
                         for i in ids[1:]:
                             m.ids[i] = "incoming"
                         if kind == "lanelet":
-                            m.refs[ids[0]] = (set(), set())
+                            m.refs[ids[0]] = tuple(set(x) for x in U.lrefs.get(ids[0], ((), ())))
                     if exp_exc != (raised is not None):
                         ctx.violation("C09/add_objects(list)/exception-mismatch", "expected exception %s, got %r" % (
                             exp_exc, raised), wit)
@@ -337,8 +342,15 @@ def run(ctx):
                             continue  # an element of the same kind with this id is contained: that would be a real removal
                         ctx.feature("op.remove-stale." + kind_)
                         obj_ = U.make(arg)
-                        {"lanelet": sc.remove_lanelet, "sign": sc.remove_traffic_sign, "light": sc.remove_traffic_light,
-                         "intersection": sc.remove_intersection}[kind_](obj_)
+                        if kind_ == "lanelet":
+                            # (without the hanging-member clean-up: that one looks at the references of the PASSED lanelet
+                            # and may legitimately remove contained signs / lights that nothing else refers to)
+                            sc.remove_lanelet(obj_, referenced_elements=False)
+                        else:
+                            {"sign": sc.remove_traffic_sign, "light": sc.remove_traffic_light,
+                             "intersection": sc.remove_intersection}[kind_](obj_)
+                            if kind_ == "light":
+                                _cleanup_refs(m, 1, "light")  # the network cleans light references on every call
                 elif op == "replace":
                     nid = U.net_ids(arg)
                     obst = {i for i, k in m.ids.items() if k in ("static", "dynamic", "phantom", "environment")}
@@ -429,21 +441,28 @@ def run(ctx):
                     if m.ids.get(s) == "sign":
                         m.ids.pop(s)
                         _drop_live(live, "sign", s, removed_once)
+                        _cleanup_refs(m, 0, "sign")
                 for s in lights - rl:
                     if m.ids.get(s) == "light":
                         m.ids.pop(s)
                         _drop_live(live, "light", s, removed_once)
+                        _cleanup_refs(m, 1, "light")
         elif kind == "intersection":
             for i in [ids[0]] + list(m.inter.pop(ids[0], ids[1:])):
                 m.ids.pop(i, None)
         else:
             m.ids.pop(ids[0], None)
+            # removing a contained sign / any light makes the network drop EVERY reference number that names no contained
+            # sign / light (LaneletNetwork.cleanup_traffic_*_references), not only the number of the removed element
             if kind == "sign":
-                for v in m.refs.values():
-                    v[0].discard(ids[0])
+                _cleanup_refs(m, 0, "sign")
             if kind == "light":
-                for v in m.refs.values():
-                    v[1].discard(ids[0])
+                _cleanup_refs(m, 1, "light")
+
+    def _cleanup_refs(m, which, kind):
+        have = {i for i, k in m.ids.items() if k == kind}
+        for v in m.refs.values():
+            v[which].intersection_update(have)
 
     def _drop_live(live, kind, i, removed_once):
         for k in list(live):
